@@ -144,7 +144,8 @@ def k_seq(run, case):
     unit_name = case.get("unit") or ["mm", "cm", "m", "km"][rng.integers(4)]
     unit = Unit(unit_name)
     idx = axes_of(mode_name)
-    funcs = ["traj", "traj_colormap", "markers", "edges", "frames", "traj_xyz", "traj_rpy", "speeds", "error_array"]
+    funcs = ["traj", "traj_colormap", "markers", "edges", "frames", "traj_xyz", "traj_rpy", "speeds", "error_array",
+             "trajectories"]
     L = int(rng.integers(3, 8))
     seq = [funcs[i] for i in rng.integers(0, len(funcs), size=L)]
     if "seq" in case:
@@ -280,6 +281,40 @@ def k_seq(run, case):
                                                                    (0 if dt != "float32" else 1e-6 * mag))),
                               "speed plot shows the speeds", case, "%s: y data are not the speeds" % where,
                               key="speeds:wrong-y")
+            elif f == "trajectories":
+                # the high-level function on a Figure: one or two panels of the same figure, each
+                # with its own mode (and unit) - every call gets its own, correctly labelled axis
+                panels = int(rng.integers(1, 3))
+                known = []
+                for j in range(panels):
+                    mj = MODES[rng.integers(7)] if j else mode_name
+                    uj = ["mm", "cm", "m", "km"][rng.integers(4)] if j else unit_name
+                    ij = axes_of(mj)
+                    what = [tr, {"first": tr, "second": tr2}, [tr, tr2]][rng.integers(3)]
+                    plot.trajectories(fig, what, plot.PlotMode[mj], subplot_arg=111 if panels == 1 else 121 + j,
+                                      length_unit=Unit(uj), plot_start_end_markers=bool(rng.random() < .3))
+                    new_axes = [a for a in fig.axes if a not in known]
+                    known = list(fig.axes)
+                    if not run.check(len(new_axes) == 1, "every trajectories() call on a figure draws into its own axis", case,
+                                     "%s: panel %d (mode %s) created %d new axes in the figure" % (where, j + 1, mj, len(new_axes)),
+                                     key="trajectories:axis"):
+                        break
+                    a = new_axes[0]
+                    labels = [a.get_xlabel(), a.get_ylabel()] + ([a.get_zlabel()] if mj == "xyz" else [])
+                    run.check(len(labels) == len(ij) and all(("$%s$" % "xyz"[i]) in lab and ("(%s)" % uj) in lab
+                                                             for i, lab in zip(ij, labels)),
+                              "axis labels name the mode's axes and the length unit", case,
+                              "%s: panel %d mode %s unit %s has axis labels %r" % (where, j + 1, mj, uj, labels),
+                              key="labels:trajectory-axes")
+                    fac = 1.0  # (data stay in metres; other units are shown through the tick formatter)
+                    data = [ln.get_data_3d() if mj == "xyz" else ln.get_data() for ln in a.lines]
+                    hit = any(len(d) == len(ij) and all(np.asarray(d[k]).shape == (n, ) and
+                                                        bool(np.all(np.abs(np.asarray(d[k], dtype=float) - P[:, i] * fac) <=
+                                                                    1e-9 * (1 + np.abs(P[:, i] * fac))))
+                                                        for k, i in enumerate(ij)) for d in data)
+                    run.check(hit, "trajectory line drawn at the trajectory's own coordinates of the mode's axes", case,
+                              "%s: panel %d (mode %s, unit %s) holds no line at columns %s of the positions" %
+                              (where, j + 1, mj, uj, ij), key="trajectories:wrong-data")
             elif f == "error_array":
                 ax = fig.gca()
                 rec = AxRec(ax)
